@@ -39,7 +39,12 @@ DIRS = ["INPUT", "OUTPUT", "INOUT"]
 def plan(tier):
     n = 16 if tier == "quick" else 64
     per = 150 if tier == "quick" else 900
-    return [{"kind": "hyp", "name": f"hist{i}", "examples": per} for i in range(n)]
+    shards = [{"kind": "hyp", "name": f"hist{i}", "examples": per} for i in range(n)]
+    nv, pv = (4, 500) if tier == "quick" else (16, 4000)
+    shards += [{"kind": "hyp", "name": f"view{i}", "examples": pv, "gen": "view"} for i in range(nv)]
+    nh, ph = (4, 150) if tier == "quick" else (16, 1200)
+    shards += [{"kind": "hyp", "name": f"viewvhdl{i}", "examples": ph, "gen": "viewvhdl"} for i in range(nh)]
+    return shards
 
 
 def _ops():
@@ -54,6 +59,10 @@ def _ops():
 
 
 def strategy(shard):
+    if shard.get("gen") == "view":
+        return _view_case()
+    if shard.get("gen") == "viewvhdl":
+        return _view_case(vhdl=True)
     return st.fixed_dictionaries({
         "mode": st.sampled_from(["fresh", "fresh", "fresh", "abs"]),
         "ops": st.lists(_ops(), min_size=2, max_size=14).map(lambda l: [list(t) for t in l]),
@@ -88,6 +97,14 @@ def _q_le(a, b):
 
 
 def check(case):
+    if case.get("kind") == "view":
+        return _check_view(case)
+    if case.get("kind") == "viewvhdl":
+        return _check_view_vhdl(case)
+    return _check_history(case)
+
+
+def _check_history(case):
     import cohdl
     from cohdl import Array, Bit, BitVector, Port, Signal, Signed, Temporary, Unsigned, Variable
 
@@ -251,4 +268,385 @@ def _request(key, KCLS, QCLS):
 
 
 def view(case):
+    if case.get("kind") in ("view", "viewvhdl"):
+        return case
     return {"mode": case["mode"], "ops": [" ".join(map(str, o)) for o in case["ops"]]}
+
+
+# =====================================================================================================
+# Views: .unsigned/.signed/.bitvector, slices, indices, msb/lsb/left/right, iteration
+# =====================================================================================================
+# A chain of view operations is generated together with a plain-Python *position model*:
+# the list of root bit indices (LSB first) the view must show.  Checked per case:
+#   python level  (kind "view"):     _root is the original object, the qualifier is the root's qualifier, the
+#                                    view reads exactly the modelled root bits for several distinctive root
+#                                    patterns (fresh roots) and - for Signal/Variable, which have a Python level
+#                                    write API - writes through the view change exactly the modelled root bits
+#                                    and writes to the root show up in the view; the constant _ref_spec of the
+#                                    view resolves to the modelled positions.
+#   VHDL level    (kind "viewvhdl"): a tiny entity `o_k <<= view_k` (read) / `view <<= inp` (write) is compiled
+#                                    and the index text emitted for the root must name the modelled positions.
+#                                    (No simulation: the in-house VHDL engine is not available yet.)
+VIEW_CASTS = ["unsigned", "signed", "bitvector"]
+
+
+@st.composite
+def _chain(draw, width, is_array, n_elems, max_ops=5):
+    """-> (ops, model) ; model = {"elem": int|None, "pos": [root bit indices], "bit": bool, "depth": slices so far}"""
+    ops = []
+    elem = None
+    if is_array:
+        k = draw(st.integers(0, n_elems - 1))
+        ops.append([draw(st.sampled_from(["idx", "iter"])), k])
+        elem = k
+    pos = list(range(width))
+    bit = False
+    for _ in range(draw(st.integers(0 if is_array else 1, max_ops))):
+        if bit:
+            break
+        n = len(pos)
+        choice = draw(st.sampled_from(["slice", "slice", "slice", "idx", "iter", "cast", "msb", "lsb", "left", "right"]))
+        if choice == "slice":
+            lo = draw(st.integers(0, n - 1))
+            hi = draw(st.integers(lo, n - 1))
+            ops.append(["slice", hi, lo])
+            pos = pos[lo:hi + 1]
+        elif choice in ("idx", "iter"):
+            i = draw(st.integers(0, n - 1))
+            ops.append([choice, i])
+            pos = [pos[i]]
+            bit = True
+        elif choice == "cast":
+            ops.append([draw(st.sampled_from(VIEW_CASTS))])
+        else:
+            form = draw(st.sampled_from(["bit", "count", "rest", "both"]))
+            top = choice in ("msb", "left")
+            if form == "bit":
+                ops.append([choice, None, None])
+                pos = [pos[n - 1] if top else pos[0]]
+                bit = True
+            else:
+                cnt = draw(st.integers(1, n))
+                ops.append([choice, cnt if form in ("count", "both") else None, (n - cnt) if form in ("rest", "both") else None])
+                pos = pos[n - cnt:] if top else pos[:cnt]
+    return ops, {"elem": elem, "pos": pos, "bit": bit}
+
+
+@st.composite
+def _view_case(draw, vhdl=False):
+    is_array = draw(st.integers(0, 3)) == 0
+    kind = draw(st.sampled_from(KINDS))
+    width = draw(st.integers(1, 9))
+    n = draw(st.integers(1, 4)) if is_array else 0
+    root = {"t": "arr" if is_array else "vec", "k": kind, "w": width, "n": n}
+    if vhdl:
+        direction = draw(st.sampled_from(["read", "read", "write"]))
+        nch = draw(st.integers(1, 4)) if direction == "read" else 1
+        chains = []
+        for _ in range(nch):
+            ops, model = draw(_chain(width, is_array, n))
+            chains.append({"ops": ops, "model": model})
+        return {"kind": "viewvhdl", "dir": direction, "root": root, "chains": chains}
+    ops, model = draw(_chain(width, is_array, n))
+    nbits = width * max(n, 1)
+    pats = draw(st.lists(st.integers(0, 2 ** nbits - 1), min_size=2, max_size=3))
+    return {"kind": "view", "qual": draw(st.sampled_from(QUALS)), "root": root, "ops": ops, "model": model, "pats": pats,
+            "wpat": draw(st.integers(0, 2 ** 9 - 1))}
+
+
+def _apply_chain(obj, ops):
+    for op in ops:
+        tag = op[0]
+        if tag == "slice":
+            obj = obj[op[1]:op[2]]
+        elif tag == "idx":
+            obj = obj[op[1]]
+        elif tag == "iter":
+            obj = list(obj)[op[1]]
+        elif tag in VIEW_CASTS:
+            obj = getattr(obj, tag)
+        else:
+            kw = {}
+            if op[1] is not None:
+                kw["count"] = op[1]
+            if op[2] is not None:
+                kw["rest"] = op[2]
+            obj = getattr(obj, tag)(**kw)
+    return obj
+
+
+def _chain_shape(ops):
+    """Root-cause oriented description of a chain: last operation and what it was applied to."""
+    slices = 0
+    for op in ops[:-1]:
+        if op[0] == "slice" or (op[0] in ("msb", "lsb", "left", "right") and (op[1] is not None or op[2] is not None)):
+            slices += 1
+    last = ops[-1][0] if ops else "none"
+    if last in ("msb", "lsb", "left", "right"):
+        last += "_bit" if ops[-1][1] is None and ops[-1][2] is None else "_vec"
+    return {"last": last, "slices_before": min(slices, 2)}
+
+
+def _bits_of(value):
+    """LSB-first list of '0'/'1' characters of a Bit / BitVector value (plain str() of the value: MSB first)."""
+    from cohdl import Bit
+
+    if isinstance(value, Bit):
+        return ["1" if value else "0"]
+    return [("1" if b else "0") for b in value]
+
+
+def _root_type(root):
+    from cohdl import Array, BitVector, Signed, Unsigned
+
+    T = {"bv": BitVector, "u": Unsigned, "s": Signed}[root["k"]][root["w"]]
+    return Array[T, root["n"]] if root["t"] == "arr" else T
+
+
+def _root_init(root, pat):
+    from cohdl import BitVector
+
+    w = root["w"]
+    if root["t"] == "vec":
+        return BitVector[w](format(pat % (1 << w), f"0{w}b"))
+    vals = []
+    for i in range(root["n"]):
+        vals.append(_root_type({**root, "t": "vec"})(BitVector[w](format((pat >> (i * w)) % (1 << w), f"0{w}b"))))
+    return vals
+
+
+def _model_bits(root, model, pat):
+    w = root["w"]
+    word = (pat >> (model["elem"] * w)) % (1 << w) if model["elem"] is not None else pat % (1 << w)
+    return ["1" if (word >> p) & 1 else "0" for p in model["pos"]]
+
+
+def _resolve_ref_spec(view):
+    """Constant _ref_spec -> path of ("o", index) / ("s", low, high) steps (base offsets folded in, as the
+    VHDL backend does with RefSpec.simplify(), but without mutating the spec)."""
+    from cohdl._core._type_qualifier import Offset, Slice
+
+    path = []
+    for r in view._ref_spec:
+        base = sum(r.base_offset)
+        if isinstance(r, Offset):
+            path.append(("o", r.offset + base))
+        elif isinstance(r, Slice):
+            path.append(("s", r.stop + base, r.start + base))
+    return path
+
+
+def _check_view(case):
+    from cohdl import Array, Bit, BitVector, Signal, Signed, Temporary, Unsigned, Variable
+
+    out = Outcome()
+    QCLS = {"Signal": Signal, "Variable": Variable, "Temporary": Temporary}
+    Q = QCLS[case["qual"]]
+    root, ops, model = case["root"], case["ops"], case["model"]
+    T = _root_type(root)
+    shape = _chain_shape(ops)
+    sig = lambda check, **kw: {"kind": "view", "check": check, **shape, **kw}  # noqa: E731
+    out.labels.append(f"view:last={shape['last']}")
+    out.labels.append(f"view:slices_before={shape['slices_before']}")
+    out.labels.append("view:array_root" if root["t"] == "arr" else "view:vector_root")
+    out.nontrivial = len(ops) >= 2
+    if len(ops) >= 2:
+        out.labels.append("view_of_view")
+
+    views = []
+    try:
+        for pat in case["pats"]:
+            r = Q[T](_root_init(root, pat))
+            views.append((pat, r, _apply_chain(r, ops)))
+    except Exception as e:  # noqa: BLE001 - the documented view API refused a chain the generator considers valid
+        out.status = "rejected"
+        out.labels.append(f"view_rejected:{type(e).__name__}")
+        return out
+
+    for pat, r, v in views:
+        if v._root is not r:
+            out.add(sig("root"), f"{ops}: view._root is not the original object")
+        if not isinstance(v, Q):
+            out.add(sig("qualifier"), f"{ops}: view is a {type(v)}, root is a {case['qual']}")
+        got = _bits_of(v._value) if not isinstance(v._value, Array) else None
+        exp = _model_bits(root, model, pat)
+        if got is None:
+            continue  # chain ended on the array itself (no operation): nothing to read
+        if got != exp:
+            out.add(sig("read"), f"{ops} on root pattern {pat:#x}: view shows bits (LSB first) {got}, model {exp}")
+    # constant _ref_spec must resolve to the modelled positions
+    pat, r, v = views[0]
+    path = _resolve_ref_spec(v)
+    pos = model["pos"]
+    want_elem = [("o", model["elem"])] if model["elem"] is not None else []
+    if model["bit"]:
+        want = [want_elem + [("o", pos[0])]]
+    else:
+        want = [want_elem + [("s", pos[0], pos[-1])]]
+        if pos == list(range(root["w"])):
+            want.append(want_elem)  # whole vector / element: no slice needed
+    if path not in want:
+        out.add(sig("refspec"), f"{ops}: _ref_spec resolves to {path}, model says {want[0]} "
+                f"(o = index, s = (low, high) bit positions of the root)")
+    # write-through (Signal / Variable have a Python level assignment API)
+    if case["qual"] in ("Signal", "Variable") and not isinstance(v._value, Array):
+        attr = "next" if case["qual"] == "Signal" else "value"
+        n = len(pos)
+        wp = case["wpat"] % (1 << n)
+        before = _all_bits(r, root)
+        try:
+            if model["bit"]:
+                setattr(v, attr, Bit(bool(wp & 1)))
+            else:
+                setattr(v, attr, type(v._value)(BitVector[n](format(wp, f"0{n}b"))))
+        except Exception as e:  # noqa: BLE001
+            out.labels.append(f"view_write_rejected:{type(e).__name__}")
+        else:
+            after = _all_bits(r, root)
+            expect = list(before)
+            base = (model["elem"] or 0) * root["w"]
+            for i, p in enumerate(pos):
+                expect[base + p] = "1" if (wp >> i) & 1 else "0"
+            if after != expect:
+                out.add(sig("write"), f"{ops}: writing {wp:#b} through the view changed the root from {before} to {after}, "
+                        f"model says {expect} (LSB first, elements concatenated)")
+            # and the other direction: a write to the root is visible through the existing view
+            pat2 = case["pats"][-1] ^ ((1 << (root["w"] * max(root["n"], 1))) - 1)
+            try:
+                if root["t"] == "vec":
+                    setattr(r, attr, type(r._value)(_root_init(root, pat2)))
+                else:
+                    for i, el in enumerate(_root_init(root, pat2)):
+                        setattr(r[i], attr, el)
+            except Exception as e:  # noqa: BLE001
+                out.labels.append(f"root_write_rejected:{type(e).__name__}")
+            else:
+                got = _bits_of(v._value)
+                exp = _model_bits(root, model, pat2)
+                if got != exp:
+                    out.add(sig("alias"), f"{ops}: after re-assigning the root to {pat2:#x} the old view shows {got}, model {exp}")
+    return out
+
+
+def _all_bits(r, root):
+    from cohdl import Array
+
+    if root["t"] == "vec":
+        return _bits_of(r._value)
+    bits = []
+    for el in r._value:
+        bits += _bits_of(el)
+    return bits
+
+
+# ----------------------------------------------------------------------------------- VHDL level
+def _make_view_entity(root, chains, direction):
+    """Entity class whose concurrent context reads (o_k <<= view_k) or writes (view <<= inp) the views."""
+    from cohdl import Entity, Port, Signal, std
+
+    T = _root_type(root)
+    scratch = Signal[T]()
+    vtypes = [type(_apply_chain(scratch, ch["ops"])._value) for ch in chains]
+
+    if direction == "read":
+        def architecture(self):
+            views = [_apply_chain(self.rootsig, ch["ops"]) for ch in chains]
+            outs = [getattr(self, f"o{k}") for k in range(len(views))]
+
+            @std.concurrent
+            def logic():
+                for o, v in zip(outs, views):
+                    o <<= v
+
+        ns = {"rootsig": Port.input(T), "architecture": architecture}
+        for k, vt in enumerate(vtypes):
+            ns[f"o{k}"] = Port.output(vt)
+    else:
+        def architecture(self):
+            rootsig = Signal[T](name="rootsig")
+            views = [_apply_chain(rootsig, chains[0]["ops"])]
+            inp = self.inp
+
+            @std.concurrent
+            def logic():
+                views[0] <<= inp
+
+        ns = {"inp": Port.input(vtypes[0]), "architecture": architecture}
+    return type("ViewTop", (Entity,), ns)
+
+
+_IDX = r"((?:\(\s*\d+(?:\s+downto\s+\d+)?\s*\))*)"
+
+
+def _index_groups(text, name="rootsig"):
+    """All occurrences of `name` in text with their index groups: [[(hi, lo) | (i,)], ...]"""
+    import re
+
+    res = []
+    for m in re.finditer(r"\b" + name + r"\b" + _IDX, text):
+        groups = []
+        for g in re.finditer(r"\(\s*(\d+)(?:\s+downto\s+(\d+))?\s*\)", m.group(1)):
+            groups.append((int(g.group(1)),) if g.group(2) is None else (int(g.group(1)), int(g.group(2))))
+        res.append(groups)
+    return res
+
+
+def _expected_groups(root, model):
+    """Acceptable index texts for the modelled positions."""
+    pos = model["pos"]
+    pre = [(model["elem"],)] if model["elem"] is not None else []
+    if model["bit"]:
+        return [pre + [(pos[0],)]]
+    alts = [pre + [(pos[-1], pos[0])]]
+    if pos == list(range(root["w"])):
+        alts.append(pre)
+    return alts
+
+
+def _check_view_vhdl(case):
+    import re
+
+    from cv.harness import loader
+
+    out = Outcome()
+    root, chains, direction = case["root"], case["chains"], case["dir"]
+    out.labels.append(f"viewvhdl:{direction}")
+    try:
+        cls = _make_view_entity(root, chains, direction)
+    except Exception as e:  # noqa: BLE001 - the view API refused the chain
+        out.status = "rejected"
+        out.labels.append(f"view_rejected:{type(e).__name__}")
+        return out
+    try:
+        vhdl = loader.compile_entity(cls)
+    except loader.Rejected as r:
+        out.status = "rejected"
+        out.labels.append(f"viewvhdl_rejected:{r.exc_type}")
+        return out
+    out.nontrivial = any(len(ch["ops"]) >= 2 for ch in chains)
+    lines = [l.strip() for l in vhdl.splitlines() if "<=" in l]
+    for k, ch in enumerate(chains):
+        shape = _chain_shape(ch["ops"])
+        out.labels.append(f"view:last={shape['last']}")
+        if direction == "read":
+            cand = [l for l in lines if re.match(rf"(buffer_)?o{k}\b", l)]
+            cand = [l.split("<=", 1)[1] for l in cand if "rootsig" in l.split("<=", 1)[1]]
+        else:
+            cand = [l.split("<=", 1)[0] for l in lines if re.match(r"rootsig\b", l)]
+        if len(cand) != 1:
+            out.status = "unspecified"  # the emitted text does not have the one-assignment form this check reads
+            out.labels.append("viewvhdl:unreadable")
+            continue
+        occ = _index_groups(cand[0])
+        if len(occ) != 1:
+            out.status = "unspecified"
+            out.labels.append("viewvhdl:unreadable")
+            continue
+        want = _expected_groups(root, ch["model"])
+        if occ[0] not in want:
+            out.add({"kind": "view", "check": "vhdl_index", "dir": direction, **shape},
+                    f"{ch['ops']} on {root}: emitted `{cand[0].strip()}`; modelled root index {want[0]} "
+                    f"((i,) = element/bit index, (hi, lo) = hi downto lo)")
+        else:
+            out.counters["vhdl_indices_checked"] = out.counters.get("vhdl_indices_checked", 0) + 1
+    return out
